@@ -129,6 +129,44 @@ pub fn gen(rng: &mut Rng, n: usize, sink: &mut Sink, focus: &str) {
                 }
             }
             let p = pool[k].clone();
+            if focus == "C16" && pend.is_empty() && min_delay == 0 && rng.chance(1, 10) {
+                // directed: a caller's failed dispatch leaves a large EGLD credit; then a proposal that goes through
+                // spends most of the contract's pooled EGLD; then the caller withdraws — the credit must be paid in full
+                // or (when the pool cannot cover it) stay untouched — and withdraws again after the pool is refilled
+                let u = user(rng.below(2) as u8);
+                let pa = pool[0].clone();
+                let pb = pool[2].clone(); // value 9000: possible only while the failed dispatch's EGLD is in the pool
+                let big = *rng.pick(&[6000u64, 6000, 4500]);
+                g.command(rng, sink, &execute_payload(0, &pa, now), true, GOV_CHAIN, GOV_ADDR, &user(1), None);
+                let out = sink.exec(&format!("tx {} {} executeProposal {} - {}", hex::encode(&u), hex::encode(&gaddr), big, args(&[pa.target.clone(), pa.call_data.clone(), nat(pa.value)])));
+                if out.starts_with("ok") && !out.ends_with("pend=-") {
+                    let id = next_pend;
+                    next_pend += 1;
+                    sink.exec(&format!("deliver {} fail", id));
+                    sink.exec(&format!("cb {}", id));
+                    sink.exec(&format!("query {} getRefundToken {}", hex::encode(&gaddr), args(&[u.clone(), token_arg("EGLD", 0)])));
+                    g.command(rng, sink, &execute_payload(0, &pb, now), true, GOV_CHAIN, GOV_ADDR, &user(1), None);
+                    let out = sink.exec(&format!("tx {} {} executeProposal 0 - {}", hex::encode(user(3)), hex::encode(&gaddr), args(&[pb.target.clone(), pb.call_data.clone(), nat(pb.value)])));
+                    if out.starts_with("ok") && !out.ends_with("pend=-") {
+                        let id2 = next_pend;
+                        next_pend += 1;
+                        sink.exec(&format!("deliver {} ok -", id2));
+                        sink.exec(&format!("cb {}", id2));
+                    }
+                    sink.exec(&format!("bal {} EGLD", hex::encode(&gaddr)));
+                    sink.exec(&format!("tx {} {} withdrawRefundToken 0 - {}", hex::encode(&u), hex::encode(&gaddr), args(&[token_arg("EGLD", 0)])));
+                    sink.exec(&format!("query {} getRefundToken {}", hex::encode(&gaddr), args(&[u.clone(), token_arg("EGLD", 0)])));
+                    sink.exec(&format!("bal {} EGLD", hex::encode(&u)));
+                    if rng.chance(2, 3) {
+                        // the pool is topped up again (environment move): now the credit is paid, in full, once
+                        sink.exec(&format!("acct {} 20000 -", hex::encode(&gaddr)));
+                        sink.exec(&format!("tx {} {} withdrawRefundToken 0 - {}", hex::encode(&u), hex::encode(&gaddr), args(&[token_arg("EGLD", 0)])));
+                        sink.exec(&format!("query {} getRefundToken {}", hex::encode(&gaddr), args(&[u.clone(), token_arg("EGLD", 0)])));
+                        sink.exec(&format!("bal {} EGLD", hex::encode(&u)));
+                    }
+                }
+                continue;
+            }
             if focus == "C16" && !p.real && etas[k] > 0 && rng.chance(1, 4) {
                 // one caller fails the same matured proposal several times in a row (the failure callback restores
                 // the time lock): credits of that caller pile up, with and without EGLD attached
@@ -362,6 +400,9 @@ pub fn gen(rng: &mut Rng, n: usize, sink: &mut Sink, focus: &str) {
                     4 if rng.chance(1, 3) => {
                         // the owner upgrades the contract (same code; `upgrade()` is empty): nothing may change,
                         // also while dispatches are in flight
+                        if rng.chance(1, 2) {
+                            sink.exec(&format!("wipe {}", hex::encode(&gaddr)));
+                        }
                         sink.exec(&format!("tx {} {} upgradeContract 0 - {}", hex::encode(user(0)), hex::encode(&gaddr), args(&[b"governance".to_vec(), vec![5u8, 6u8]])));
                         let p2 = pool[k].clone();
                         sink.exec(&format!("query {} getProposalEta {}", hex::encode(&gaddr), args(&[p2.target.clone(), p2.call_data.clone(), nat(p2.value)])));
